@@ -9,21 +9,29 @@ prop("C16", "exploration",
      "yields from the initiation / forced-close path: Reliable.initiate after sending and before starting the sender, Muxer.Stop after "
      "publishing 'stopping' and in its force timer, receiver dispatch, with delays around the documented timers 333 ms / 1 s) -, 2-6 goroutines of "
      "1-5 operations over both ends (Write, Read, Close, WaitForClose, SetDeadline, Muxer.Stop, Close+WaitForClose) with "
-     "inter-operation delays; a preload (per tube end 0-20 writes of 1 B - 32 KiB made before the program starts and left unread by the "
+     "inter-operation delays; write sizes 1 B - 200 KB and ZERO-LENGTH writes (empty and nil slice; on unreliable tubes through Write or "
+     "WriteMsgUDP); in one case in four 1-4 REPLAYED INITIATION DATAGRAMS: late / duplicated copies of REQ and RESP datagrams that "
+     "really crossed the case's network (recorded per direction from the start), delivered once more to the side they were addressed "
+     "to, at a drawn time of the program or at a drawn phase of a Muxer.Stop (enter / stopping / tubesClosed / queuesClosed - weighted: "
+     "queues closed while the receiver still reads - / force timer; the Stop goroutine then pauses 0-400 ms at that lock-free point), "
+     "half of these cases with a slow reaper (closed tubes stay listed 5 ms - 1.2 s longer), both applications accepting; "
+     "a preload (per tube end 0-20 writes of 1 B - 32 KiB made before the program starts and left unread by the "
      "peer, so that Close/Stop meet tubes with buffered, not yet read data); a loss pattern (0/10/50/100 %, healing at a drawn time, or a network that goes dead for good at a "
      "drawn moment), optionally the underlying connection failing (write errors or closed underneath) at a drawn moment, a muxer "
      "data timeout in {0, 2 s, 30 s}, and a yield schedule (virtual delays at the verif-tagged yield points in Muxer.Stop / "
      "receiver / reaper, Reliable.Close / enterClosedState / receive / send loop / initiate, Unreliable.Close / receive / sender). Runs "
      "inside a synctest bubble. Oracle: when both ends have closed and the network delivers, WaitForClose returns within 30 "
      "virtual s without any Stop; three concurrent Stop calls per muxer return within 20 virtual s with equal results; 30 s "
-     "after both muxers stopped no call is still blocked; Write fails and Read reaches end-of-stream afterwards; reads return only "
+     "after both muxers stopped no call is still blocked; every write after a local Close has returned fails whatever its length, and after "
+     "shutdown Write (and WriteMsgUDP on unreliable tubes) of nil, empty and 16 bytes fails and Read reaches end-of-stream; reads return only "
      "what the peer wrote; after shutdown each end must return exactly what sits unread in its buffer (white box: buffered bytes of a "
      "reliable tube, the receive queue of an unreliable tube copied out and put back: exactly those messages, in that order), then "
      "end-of-stream, and nothing after end-of-stream; inside a program, a Read on an unreliable end whose local Close/Stop has "
      "returned must not report end-of-stream while its receive queue is non-empty and must not return a message after an earlier "
      "such Read reported end-of-stream; no panic; no goroutine left (bubble exit). Non-trivial = lifecycle operations (Close/Stop) in >=2 "
      "goroutines, or lifecycle under loss>=50 % / dead network; distinct by case hash.",
-     ["between two instrumented points the Go scheduler decides the interleaving", "a one-sided close on a dead network without data timeout and without Stop is not required to finish; every program ends with Stop on both muxers",
+     ["between two instrumented points the Go scheduler decides the interleaving", "a datagram network may deliver a copy of any datagram it carried once more, at any later time", "transport writes never stall inside the bubble (a virtual-time stall of the muxer sender freezes the clock behind lifecycle mutexes); the window 'queues closed, receiver still reading' is opened by the yield at Muxer.Stop.queuesClosed instead",
+      "a one-sided close on a dead network without data timeout and without Stop is not required to finish; every program ends with Stop on both muxers",
       "bounds are virtual (synctest): 30 s / 10 s are far above the documented timers (muxerTimeout 1 s, drain 1 s, last-ack 4*RTT)"],
      [dict(name="programs", pkg="tubes", run="^TestVerifC16Programs$", shards=dict(quick=16, thorough=16), thorough_scale=50, timeout=dict(quick=900, thorough=7200)),
       dict(name="race", pkg="tubes", race=True, run="^TestVerifC16Programs$", shards=dict(quick=16, thorough=16), thorough_scale=20, env=dict(VERIF_SCALE_MULT="0.15"), timeout=dict(quick=900, thorough=7200))],
